@@ -28,10 +28,16 @@ LitSets == {s \in SUBSET (Literals \cup {NULL}) : Cardinality(s) <= 2}
 Exprs1 == {[col |-> "a", op |-> o, lit |-> l] : o \in CmpOps, l \in Literals}
      \cup {[col |-> "a", op |-> o, lit |-> s] : o \in SetOps, s \in LitSets}
      \cup {[col |-> "a", op |-> o, lit |-> 0] : o \in NullOps}
+\* NaN as a literal / member of the value set (float columns only)
+NanSets == {s \cup {NAN} : s \in {t \in SUBSET (Literals \cup {NULL}) : Cardinality(t) <= 1}}
+Exprs1Nan == {[col |-> "a", op |-> o, lit |-> NAN] : o \in CmpOps}
+        \cup {[col |-> "a", op |-> o, lit |-> s] : o \in SetOps, s \in NanSets}
 
 Row1(v) == [a |-> v]
 Cases1 == {[kind |-> 1, isFloat |-> fl, file |-> [i \in 1..Len(f) |-> Row1(f[i])], exprs |-> <<e>>] :
               fl \in BOOLEAN, f \in Files1(TRUE), e \in Exprs1}
+     \cup {[kind |-> 1, isFloat |-> TRUE, file |-> [i \in 1..Len(f) |-> Row1(f[i])], exprs |-> <<e>>] :
+              f \in Files1(TRUE), e \in Exprs1Nan}
 \* (files containing NaN are only meaningful for the float column)
 Cases1ok == {x \in Cases1 : x.isFloat \/ \A i \in 1..Len(x.file) : x.file[i].a # NAN}
 
